@@ -245,8 +245,14 @@ func parseExpressionLv3(p *ParserZH, cfg syntax.EqMarkConfig) syntax.Expression 
 		TypeLogicNoW:    syntax.LogicXNEQ,
 	}
 
+	// comparison operators share one precedence level and, like the operators of the other
+	// levels, group left to right: A < B == C is {A < B} == C
 	exprL := parseExpressionLv4(p, cfg)
-	if match, tk := p.tryConsume(validTypes...); match {
+	for {
+		match, tk := p.tryConsume(validTypes...)
+		if !match {
+			return exprL
+		}
 		exprR := parseExpressionLv4(p, cfg)
 		finalExpr := &syntax.LogicExpr{
 			Type:      logicTypeMap[tk.Type],
@@ -255,9 +261,8 @@ func parseExpressionLv3(p *ParserZH, cfg syntax.EqMarkConfig) syntax.Expression 
 		}
 
 		p.setStmtCurrentLine(finalExpr, tk)
-		return finalExpr
+		exprL = finalExpr
 	}
-	return exprL
 }
 
 // parseExpressionLv4 - X 设为 Y
